@@ -9,7 +9,7 @@ from __future__ import annotations
 import ast
 from typing import Any
 
-from sa.casesplit import Splitter, describe
+from sa.casesplit import minmax_to_ite, Splitter, describe
 from sa.decmodel import DecodeModel, Move, State
 from sa.lin import Lin, consistent, entails
 from sa.report import Ctx
@@ -100,8 +100,8 @@ class Item:
             for a, b in ((cw, ch), (ch, cw)):
                 sub = {rts[0].as_atom(): a, rts[1].as_atom(): b,
                        mn_atom: mn}
-                alts.append(("not", map_atom(
-                    rej, lambda p, s=sub: p.subst(s))))
+                alts.append(("not", minmax_to_ite(map_atom(
+                    rej, lambda p, s=sub: p.subst(s)))))
             cs.append(("or",) + tuple(alts))
         return cs
 
